@@ -652,6 +652,10 @@ func e1WalkCase(seed uint64, wi int, steps int) Case {
 			for i := 0; i < nk; i++ {
 				keys = append(keys, fmt.Sprintf("n%d/k%d", i%2, i))
 			}
+			if !big && wi%3 == 1 {
+				// cluster-scoped objects have no namespace
+				keys[0], keys[1] = "/k0", "/k1"
+			}
 			labs := []string{"", "x", "y", "z"}
 			// filter family for the walk (index 1 must be reject-all for nothing here;
 			// walks do not use establish)
@@ -785,14 +789,20 @@ func e1ReaderCase(seed uint64, n int) Case {
 		rounds := 12
 		for round := 0; round < rounds && !r.Failed(); round++ {
 			var slow atomic.Bool
+			var cancelAt, seenObjs atomic.Int64
+			var cancel context.CancelFunc
 			accept := func(o metav1.Object) bool {
 				if slow.Load() {
 					time.Sleep(20 * time.Microsecond)
+					if n := cancelAt.Load(); n > 0 && seenObjs.Add(1) == n {
+						cancel()
+					}
 				}
 				return o.GetLabels()["l"] != "z"
 			}
 			F := kit.TFN("slow(l!=z)", accept)
-			ctx, cancel := context.WithCancel(context.Background())
+			var ctx context.Context
+			ctx, cancel = context.WithCancel(context.Background())
 			c := kcache.VerifNewCache(ctx, kit.NullLog{}, nil, F.Build())
 			mk := func(ver int) []metav1.Object {
 				var l []metav1.Object
@@ -832,20 +842,41 @@ func e1ReaderCase(seed uint64, n int) Case {
 			}()
 			slow.Store(true)
 			var err error
-			if round%3 == 2 {
-				_, err = c.Refilter(mk(2), kit.TFN("slow(l!=z)'", accept).Build())
+			next := mk(2)
+			cancelMid := round%4 == 3
+			if cancelMid {
+				// the context ends while the sync is being applied (the filter cancels it at
+				// its 4th object): from then on reads may be refused, but one that is
+				// answered is still the content before or after a COMPLETE sync
+				cancelAt.Store(4)
+			}
+			if round%3 == 2 && !cancelMid {
+				_, err = c.Refilter(next, kit.TFN("slow(l!=z)'", accept).Build())
 			} else {
-				_, err = c.Sync(mk(2))
+				_, err = c.Sync(next)
 			}
 			slow.Store(false)
+			if cancelMid {
+				time.Sleep(200 * time.Microsecond)
+			}
 			close(stop)
 			<-rdone
-			if err != nil {
+			if err != nil && !cancelMid {
 				r.V("C01", "op-error", "%v", err)
 				cancel()
 				return
 			}
-			post, _ := cacheSnap(c.Reader())
+			post, perr := cacheSnap(c.Reader())
+			if cancelMid || perr != nil {
+				// the cache is gone: compute the content after a complete sync independently
+				post = kit.Snap{}
+				for _, o := range next {
+					if o.GetLabels()["l"] != "z" {
+						post[kit.Key(o)] = o.GetResourceVersion()
+					}
+				}
+				r.Add("cancelled-mid-sync-rounds", 1)
+			}
 			mu.Lock()
 			for i, s := range reads {
 				r.Add("reads-during-operation", 1)
